@@ -12,11 +12,12 @@ Specs     : spec/RandomGen.tla     generator re-seeding + reader size bookkeepin
             spec/RandomWindow.tla  cylindrical equal-area sampling on an exact rational grid
                                    (declinations with rational sines): footprint + area law.
             spec/RandomGenTrace.tla trace validation of recorded operation logs.
-            spec/RandomGenAttrs.tla the joint attribute draw: one index for weights[idx] and redshifts[idx]; what
-                                   values[idx] means depends on the CONTAINER of the samples (numpy array: position,
-                                   pandas Series with a permuted integer index: label); every case (container, index
-                                   labels, drawn index) is evaluated on the real generators; the container is also a
-                                   dimension of the generator configurations all histories / traces run on.
+            spec/RandomGenAttrs.tla the joint attribute draw: both sample sets are converted to arrays at construction,
+                                   one index, both lookups by position - whatever CONTAINER each set was passed in
+                                   (numpy array, pandas Series with default / permuted / other index, list, tuple; all
+                                   pairs); deviations LookupAsPassed (code before fix R3), WeightsCastAtConstruction
+                                   (seed C16-K); every case is evaluated on the real generators; the containers are also
+                                   a dimension of the generator configurations all histories / traces run on.
 TLC       : ideal design (Deviations = {}) passes ExactSize, ReseedAtPassStart, Reproducible,
             ReseedRestores, SeedAsRequested, SeedControlled, CreateNeverRejected,
             ConstructNeverRejected, Termination over ALL histories of a construction (every seed of
@@ -241,11 +242,12 @@ BOX_WINDOWS = [
     ((10.0, 20.0, 33.0, 33.0), "zero_height_dec"),
 ]
 ATTR_KINDS = ["wz", "none", "w", "z"]
-CONTAINERS = ("ndarray", "series", "series_perm")  # RandomGenAttrs!Containers
+CONTAINERS = ("ndarray", "series", "series_perm", "series_other", "list", "tuple")  # RandomGenAttrs!Containers
 # container of the attribute samples per box configuration (window i): [attrs "wz" (j = 0), varying attrs (j = 1)]
 # (a third of them pandas Series: every draw from a Series costs ~15x the draw from an array inside pandas)
-BOX_CONTAINERS = [("ndarray", "series_perm"), ("series", "ndarray"), ("series_perm", "ndarray"), ("series_perm", "ndarray"),
-                  ("ndarray", "ndarray"), ("ndarray", "series_perm"), ("ndarray", "ndarray"), ("ndarray", "series")]
+BOX_CONTAINERS = [("ndarray", "series_perm"), ("series", "list"), ("series_perm", "series_other"), ("series_perm", "tuple"),
+                  ("series_perm+ndarray", "ndarray"), ("list", "series_perm"), ("ndarray+series_perm", "series_other+list"),
+                  ("ndarray", "series")]
 HP_CONTAINERS = ("ndarray", "series_perm", "series")
 _TRACED: dict = {}
 
@@ -308,10 +310,12 @@ class World:
         if self.w_src is not None and self.z_src is not None:
             self.rows = {(float(w), float(z)) for w, z in zip(self.w_src, self.z_src)}
         # the CONTAINER the samples are passed in (RandomGenAttrs): w_src / z_src stay the table BY POSITION (the oracle)
-        assert container in CONTAINERS
+        cw, _, cz = container.partition("+")  # "kind" (both sample sets) or "kind of weights+kind of redshifts"
+        self.containers = dict(weights=cw, redshifts=cz or cw)
+        assert set(self.containers.values()) <= set(CONTAINERS), container
         self.container = container
         self.index = None
-        if container == "series_perm":  # integer index = a permutation of 0..n-1, not the identity (if n > 1)
+        if "series_perm" in self.containers.values():  # integer index = a permutation of 0..n-1, not the identity (if n > 1)
             perm = np.asarray(index) if index is not None else srng.permutation(nsrc)
             if index is None and nsrc > 1 and np.array_equal(perm, np.arange(nsrc)):
                 perm = np.roll(perm, 1)
@@ -367,13 +371,20 @@ class World:
         """The attribute samples in the container of this configuration (a new object per generator)."""
         if values is None:
             return None
-        if self.container == "ndarray":
+        kind = self.containers[name]
+        if kind == "ndarray":
             return values.copy()
+        if kind in ("list", "tuple"):
+            return values.tolist() if kind == "list" else tuple(values.tolist())
         import pandas as pd
 
-        if self.container == "series":
+        if kind == "series":
             return pd.Series(values.copy(), name=name)
-        return pd.Series(values.copy(), index=self.index.copy(), name=name)
+        if kind == "series_perm":
+            return pd.Series(values.copy(), index=self.index.copy(), name=name)
+        # series_other: labels that are not 0..n-1 (a filtered frame / string labels)
+        n = len(values)
+        return pd.Series(values.copy(), index=[f"r{k}" for k in range(n)] if self.idx % 2 else [5 + 3 * k for k in range(n)], name=name)
 
     def ctor_text(self, real_seed) -> str:
         if self.kind == "box":
@@ -518,7 +529,13 @@ class World:
             return coarse_window_class(self.window, bad)
         if bad.startswith("outside") or bad.startswith("non_finite"):
             return self.wclass or "any"
-        return f"attrs={self.attrs}" + ("" if self.container == "ndarray" else f",container={self.container}")
+        return f"attrs={self.attrs}" + ("" if self.container == "ndarray" else f",container={self.container_class()}")
+
+    def container_class(self) -> str:
+        """coarse class of the containers of the samples for structural keys (the exact pair is in the detail)"""
+        kinds = {("sequence" if k in ("list", "tuple") else k) for n, k in self.containers.items()
+                 if (self.w_src if n == "weights" else self.z_src) is not None} or {"ndarray"}
+        return kinds.pop() if len(kinds) == 1 else "mixed"
 
     def points_bad(self, arr) -> str | None:
         names = arr.dtype.names
@@ -1477,54 +1494,52 @@ def window_class(w) -> str:
 
 
 def attr_check(ctx, yaw, worlds, seed: int) -> None:
-    """TLC enumerates (container, index labels of the source table, drawn index) with the positions of the table the two
-    lookups weights[idx] / redshifts[idx] hit; every case is evaluated on the real BoxRandoms and HealPixRandoms.
-    VIOLATION (property predicate): a drawn (weight, redshift) pair is not a row of the table as passed, BY POSITION.
-    drift (model binding): the row differs from the one the spec computes for the drawn index."""
+    """TLC enumerates (container of the weights, container of the redshifts, index labels, drawn index) with the positions
+    of the tables the two lookups weights[idx] / redshifts[idx] hit; every case is evaluated on the real BoxRandoms and
+    HealPixRandoms.  VIOLATION (property predicate): a drawn (weight, redshift) pair is not a row of the tables as
+    passed, BY POSITION, or the constructor / the draw raises.  drift (model binding): the row differs from the one the
+    spec computes for the drawn index."""
     nrows = 3 if ctx.quick else 4
     consts = dict(NRows=nrows, Containers=tla_set(CONTAINERS), Deviations="{}")
-    invs = ["TypeOK", "JointRow", "EveryRowReachable"]
+    invs = ["TypeOK", "JointRow", "DrawNeverRaises", "ByPosition"]
     res = tlc.run("RandomGenAttrs", tlc.make_cfg(constants=consts, invariants=invs + ["PrintDone"], properties=["Termination"]), coverage=True)
-    ctx.add_tlc("RandomGenAttrs ideal (joint attribute draw), all containers x index permutations x drawn indices", res, constants=consts)
+    ctx.add_tlc("RandomGenAttrs ideal (joint attribute draw), all container pairs x index permutations x drawn indices", res, constants=consts)
     ctx.require(res.ok, f"RandomGenAttrs ideal design violated: {res.error_kind} {res.error_name}")
     for act in ("Store", "DrawIndex", "LookupW", "LookupZ"):
         ctx.require(res.coverage.get(act, (0, 0))[1] > 0, f"RandomGenAttrs action {act} never taken")
-    # admissible alternative design: both sample sets converted to numpy arrays at construction (both lookups by position)
-    ares = tlc.run("RandomGenAttrs", tlc.make_cfg(constants=dict(consts, Deviations='{"SamplesCastAtConstruction"}'),
-                                                  invariants=invs + ["PrintDone"], properties=["Termination"]))
-    ctx.add_tlc("RandomGenAttrs variant SamplesCastAtConstruction (admissible alternative)", ares)
-    ctx.require(ares.ok, f"RandomGenAttrs variant SamplesCastAtConstruction violated: {ares.error_kind} {ares.error_name}")
     cases: dict = {}
-    variants = {"as_passed": {}, "cast_at_construction": {}}
-    for name, r in (("as_passed", res), ("cast_at_construction", ares)):
-        for sc, idx, pw, pz in r.printed("attrcase"):
-            variants[name].setdefault((sc["c"], tuple(sc["ix"])), {})[idx] = (pw, pz)
-    cases = variants["as_passed"]
-    ctx.require(set(variants["cast_at_construction"]) == set(cases), "RandomGenAttrs: the variants explore different cases")
-    rule_seen: dict = {}
-    nperm = math.factorial(nrows)
-    ctx.require(len(cases) == 2 + nperm - 1 and all(len(v) == nrows for v in cases.values()),
+    for sc, idx, pw, pz, err in res.printed("attrcase"):
+        cases.setdefault((sc["cw"], sc["cz"], tuple(sc["ix"])), {})[idx] = (pw, pz)
+    nk = len(CONTAINERS)
+    ctx.require(len(cases) == (2 * nk - 1) * (math.factorial(nrows) - 1) + (nk - 1) ** 2 and all(len(v) == nrows for v in cases.values()),
                 f"RandomGenAttrs: unexpected number of cases ({len(cases)})")
-    ctx.require({c for c, _ in cases} == set(CONTAINERS), "RandomGenAttrs: a container kind was not explored")
-    dres = tlc.run("RandomGenAttrs", tlc.make_cfg(constants=dict(consts, Deviations='{"WeightsCastAtConstruction"}'), invariants=invs))
-    ctx.add_tlc("RandomGenAttrs deviation WeightsCastAtConstruction", dres)
-    ctx.require(not dres.ok and dres.error_name == "JointRow", "deviation WeightsCastAtConstruction yields no counterexample (stale model)")
-    cex = dres.trace[-1]["state"]
-    cex_key = (cex["sc"]["c"], tuple(cex["sc"]["ix"]))
-    ctx.require(cex_key in cases and cex_key[0] == "series_perm", "counterexample of WeightsCastAtConstruction is not among the ideal cases")
+    ctx.require({(a, b) for a, b, _ in cases} == {(a, b) for a in CONTAINERS for b in CONTAINERS}, "RandomGenAttrs: a container pair was not explored")
+    # deviations: label (deviation, Containers, invariant violated)
+    devs = {"LookupAsPassed": ("LookupAsPassed", ("ndarray", "series_perm"), "JointRow"),
+            "LookupAsPassed@list": ("LookupAsPassed", ("list",), "DrawNeverRaises"),
+            "LookupAsPassed@series_other": ("LookupAsPassed", ("series_other",), "DrawNeverRaises"),
+            "WeightsCastAtConstruction": ("WeightsCastAtConstruction", ("series_perm",), "JointRow")}
+    cexs = {}
+    for label, (dev, conts, inv) in devs.items():
+        dres = tlc.run("RandomGenAttrs", tlc.make_cfg(constants=dict(consts, Containers=tla_set(conts), Deviations=tla_set([dev])), invariants=invs))
+        ctx.add_tlc(f"RandomGenAttrs deviation {label}", dres)
+        ctx.require(not dres.ok and dres.error_name == inv, f"deviation {label} yields no counterexample (stale model): {dres.error_kind} {dres.error_name}")
+        st = dres.trace[-1]["state"]
+        cexs[label] = (st["sc"]["cw"], st["sc"]["cz"], tuple(st["sc"]["ix"]))
+        ctx.require(cexs[label] in cases, f"counterexample of {label} is not among the ideal cases")
+    ctx.require(cexs["LookupAsPassed"][0] != cexs["LookupAsPassed"][1], "counterexample of LookupAsPassed is not a mixed-container case")
 
     M = 96
     hp = worlds["healpix"][0].healpix
     win = BOX_WINDOWS[0][0]
-    summary = dict(cases=0, containers=sorted({c for c, _ in cases}), points_per_case=M, rows=nrows)
-    shown = {}
+    summary = dict(cases=0, containers=list(CONTAINERS), container_pairs=nk * nk, points_per_case=M, rows=nrows)
 
-    def evaluate(kind, c, ix, real_seed, selfcheck=None):
-        """[(finding kind, key, detail)] of one (generator kind, container, index labels) on the real code"""
+    def evaluate(kind, cw, cz, ix, real_seed, widx=96, selfcheck=None):
+        """[(finding kind, key, detail)] of one (generator kind, containers, index labels) on the real code"""
         index = [lab - 1 for lab in ix]  # labels of the spec are 1-based
         kw = dict(kind=kind, window=win, healpix=hp, attrs="wz", nsrc=nrows, wclass="attr_case")
-        wd = World(yaw, Path("."), 96, container=c, index=index if c == "series_perm" else None, **kw)
-        ref = World(yaw, Path("."), 96, container="ndarray", **kw)  # same table; numpy arrays: the drawn index IS the position
+        wd = World(yaw, Path("."), widx, container=cw if cw == cz else f"{cw}+{cz}", index=index if "series_perm" in (cw, cz) else None, **kw)
+        ref = World(yaw, Path("."), widx, container="ndarray", **kw)  # same tables as numpy arrays: the drawn index IS the position
         ep = f"{wd.clsname}.__call__"
         detail = dict(world=wd.describe(), seed=real_seed, n=M, weights=wd.w_src.tolist(), redshifts=wd.z_src.tolist())
         out = []
@@ -1542,11 +1557,11 @@ def attr_check(ctx, yaw, worlds, seed: int) -> None:
         except LibError as err:
             return [("violation", f"C16|{ep}|{wd.key_class('attr')}|raises_{type(err.exc).__name__}",
                      dict(detail, error=repr(err.exc), traceback=tb_text(err.exc)))]
-        if selfcheck == "mixed":  # what the deviation does, done here by hand (whatever the tree's own rule is): for the drawn
-            arr = arr.copy()       # index i the weight at POSITION i and the redshift with LABEL i
-            drawn = [{float(w): k for k, w in enumerate(ref.w_src)}[float(x)] for x in raw["weights"]]
-            arr["weights"] = [wd.w_src[i] for i in drawn]
-            arr["redshifts"] = [wd.z_src[index.index(i)] for i in drawn]
+        drawn = [{float(w): k for k, w in enumerate(ref.w_src)}.get(float(x), -1) for x in raw["weights"]]
+        if selfcheck == "mixed":  # what LookupAsPassed does on mixed containers, done here by hand: for the drawn index i the
+            arr = arr.copy()       # weight with LABEL i and the redshift at POSITION i
+            arr["weights"] = [wd.w_src[index.index(i)] for i in drawn]
+            arr["redshifts"] = [wd.z_src[i] for i in drawn]
         if len(arr) != M:
             out.append(("violation", f"C16|{ep}|direct|size_{'short' if len(arr) < M else 'long'}", dict(detail, got=len(arr))))
         bad = wd.points_bad(arr)
@@ -1554,51 +1569,54 @@ def attr_check(ctx, yaw, worlds, seed: int) -> None:
             out.append(("violation", f"C16|{ep}|{wd.key_class(bad)}|{bad}", dict(detail, first_pairs=[
                 [float(a), float(b)] for a, b in zip(arr["weights"][:6], arr["redshifts"][:6])])))
         if selfcheck is None and len(raw) == len(arr) == M and not bad and not ref.points_bad(raw):
-            pos = {float(w): k for k, w in enumerate(ref.w_src)}
             seen = set()
-            match = {name: True for name in variants}
             for j in range(M):
-                i = pos[float(raw["weights"][j])] + 1  # the drawn index (1-based)
+                i = drawn[j] + 1  # the drawn index (1-based)
                 seen.add(i)
-                for name, vc in variants.items():
-                    pw, pz = vc[(c, tuple(ix))][i]
-                    if (float(arr["weights"][j]), float(arr["redshifts"][j])) != (float(wd.w_src[pw - 1]), float(wd.z_src[pz - 1])):
-                        match[name] = False
-            rules = sorted(name for name, ok in match.items() if ok)
-            if not rules:  # the rows are joint (predicate above) but neither design variant of the spec explains WHICH row was drawn
-                out.append(("drift", f"C16|{ep}|attribute_lookup_differs_from_spec", dict(detail, drawn_indices=sorted(seen))))
-            elif c == "series_perm":  # the only container on which the variants differ
-                rule_seen.setdefault(kind, set()).update(rules if len(rules) == 1 else ())
+                pw, pz = cases[(cw, cz, tuple(ix))][i]
+                if (float(arr["weights"][j]), float(arr["redshifts"][j])) != (float(wd.w_src[pw - 1]), float(wd.z_src[pz - 1])):
+                    # the rows are joint (predicate above) but not the row the design draws for this index
+                    out.append(("drift", f"C16|{ep}|attribute_lookup_differs_from_spec", dict(detail, drawn_index=i - 1)))
+                    break
             for i in seen:
-                ctx.evaluated(1, ("attrcase", kind, c, tuple(ix), i))
+                ctx.evaluated(1, ("attrcase", kind, cw, cz, tuple(ix), i))
             summary["cases"] += len(seen)
         return out
 
-    for n, ((c, ix), _) in enumerate(sorted(cases.items())):
+    for n, ((cw, cz, ix), _) in enumerate(sorted(cases.items())):
         for kind in ("box", "healpix"):
-            for kind_, key, detail in evaluate(kind, c, ix, [0, 7, 12345][(n + seed) % 3]):
+            for kind_, key, detail in evaluate(kind, cw, cz, ix, [0, 7, 12345][(n + seed) % 3], widx=96 + n % 2):
                 (ctx.violation if kind_ == "violation" else ctx.drift)(key, detail)
         ctx.validated(1)
-    ctx.require(summary["cases"] >= 2 * len(cases) * (nrows - 1), f"too few attribute cases evaluated on the real code: {summary['cases']}")
-    # the deviation's counterexample on the real code + binding demonstration (a hand-made mixed lookup must be rejected)
+    ctx.extra["attribute_containers"] = summary
+    # the deviations' counterexamples on the real code
+    shown = {}
+    for label, (cw, cz, ix) in cexs.items():
+        keys = set()
+        for kind in ("box", "healpix"):
+            for kind_, key, detail in evaluate(kind, cw, cz, ix, 4711, selfcheck="replay"):
+                if kind_ == "violation":
+                    keys.add(key)
+                    ctx.violation(key, dict(detail, found_by=f"replay of the TLC counterexample of deviation {label}"))
+        shown[label] = dict(containers=[cw, cz], index_labels=[x - 1 for x in ix], present_in_code=bool(keys), keys=sorted(keys))
+    summary["deviation_replays"] = shown
+    # binding demonstration (independent of the tree): a hand-made label/position mix must be rejected by the predicate
+    cw, cz, ix = cexs["LookupAsPassed"]
+    sp_ix = ix
     for kind in ("box", "healpix"):
-        found = evaluate(kind, cex_key[0], cex_key[1], 4711, selfcheck="replay")
-        for kind_, key, detail in found:
-            if kind_ == "violation":
-                ctx.violation(key, dict(detail, found_by="replay of the TLC counterexample of deviation WeightsCastAtConstruction"))
-        shown[kind] = sorted({k for kind_, k, _ in found if kind_ == "violation"})
-        wrong = evaluate(kind, cex_key[0], cex_key[1], 4711, selfcheck="mixed")
+        wrong = evaluate(kind, "series_perm", "ndarray", sp_ix, 4711, selfcheck="mixed")
         ctx.require(any(k.endswith("attributes_not_joint") for _, k, _ in wrong) or any("|raises_" in k for _, k, _ in wrong),
-                    "binding demonstration failed: weights by position + redshifts by label pass the joint-row predicate")
-    ctx.sample(dict(kind="attribute case", container=cex_key[0], index_labels=[x - 1 for x in cex_key[1]],
-                    law="weights[idx] and redshifts[idx] hit the same position of the table as passed",
-                    spec_positions_per_drawn_index={i - 1: [p - 1 for p in v] for i, v in cases[cex_key].items()}))
-    ctx.extra["attribute_containers"] = dict(summary, lookup_rule_of_the_tree={k: sorted(v) for k, v in rule_seen.items()},
-                                             deviation_WeightsCastAtConstruction=dict(
-        tlc_counterexample=dict(container=cex_key[0], index_labels=[x - 1 for x in cex_key[1]], drawn_index=cex["idx"] - 1,
-                                positions=[cex["pw"] - 1, cex["pz"] - 1]),
-        real_code_shows={k: bool(v) for k, v in shown.items()}, keys=shown, hand_made_mixed_lookup_rejected=True),
-        configurations={c: sum(1 for ws in worlds.values() for w in ws if w.container == c) for c in CONTAINERS})
+                    "binding demonstration failed: weights by label + redshifts by position pass the joint-row predicate")
+    summary["hand_made_mixed_lookup_rejected"] = True
+    summary["configurations"] = {}
+    for ws in worlds.values():
+        for w in ws:
+            summary["configurations"][w.container] = summary["configurations"].get(w.container, 0) + 1
+    if not any(v["present_in_code"] for v in shown.values()):
+        ctx.require(summary["cases"] >= 2 * len(cases) * (nrows - 1), f"too few attribute cases evaluated on the real code: {summary['cases']}")
+    ctx.sample(dict(kind="attribute case", containers=[cw, cz], index_labels=[x - 1 for x in ix],
+                    law="weights[idx] and redshifts[idx] hit the same position of the tables as passed, no draw raises",
+                    spec_positions_per_drawn_index={i - 1: [p - 1 for p in v] for i, v in cases[(cw, cz, ix)].items()}))
 
 
 # ---------------------------------------------------------------------------
@@ -1909,7 +1927,7 @@ def run(ctx) -> None:
     held: list = []
     general: set = set()
     report = ctx.violation
-    special = re.compile(r",(seed=0|container=\w+)(?=[|,])")  # input classes that are sub-classes of a general one
+    special = re.compile(r",(seed=0|container=[\w+]+)(?=[|,])")  # input classes that are sub-classes of a general one
 
     def violation(key, detail):
         if special.search(key):
@@ -1952,12 +1970,11 @@ def _run(ctx) -> None:
     ctx.assume("seed domain: the real seed 0 (falsy edge value) + two non-zero seeds per generator configuration (rotating over 1, 2, 7, "
                "12345, 2**31, 2**32-1, 2**32, 2**63, 2**64+11, ...), each used for construction and for reseed(s) at any point of a "
                "history; negative seeds are rejected by numpy's SeedSequence (invalid input, not explored)")
-    ctx.assume("attribute samples: numpy arrays (float64, float32, int64), pandas Series with the default index and pandas Series whose "
-               "integer index is a permutation of 0..n-1, weights and redshifts in the SAME kind of container; the oracle is the table "
-               "by position (series.to_numpy()[k]).  Not explored (the library as found refuses or mishandles them, reported to the lead, "
-               "annotated `NDArray`): Python lists / tuples (TypeError at the first draw), Series whose index is not a permutation of "
-               "0..n-1 (KeyError at the first draw), weights and redshifts in DIFFERENT containers.  Re-assigning generator.weights / "
-               ".redshifts after construction is not an operation of the property (the samples are those supplied to the constructor)")
+    ctx.assume("attribute samples: numpy arrays (float64, float32, int64), pandas Series (default index, integer index that is a "
+               "permutation of 0..n-1, filtered / string index), Python lists and tuples, weights and redshifts in the same or in "
+               "different containers (all 36 pairs); the oracle is the table by position (np.asarray(values)[k]).  Re-assigning "
+               "generator.weights / .redshifts after construction is not an operation of the property (the samples are those "
+               "supplied to the constructor)")
     ctx.assume("interleaving direct draws or a second reader INTO a running pass is outside the property ('used before'): "
                "the spec allows other operations only between passes (Abandon ends a pass early)")
     ctx.assume("healpy is not installed: HealPixRandoms runs on harness/fakehealpy.py (HEALPix nested/ring index arithmetic, "
